@@ -49,6 +49,11 @@ def setup_worker(ctx, tier, seed):
                 if name == "fista" and k.get("non_negative", True) is False:
                     return out
                 arrs = out if isinstance(out, tuple) else (out,)
+                if name == "hals_nnls" and len(a) >= 2:
+                    # rows whose diagonal entry of UtU is zero are left untouched by the solver (documented `if UtU[k, k]`):
+                    # their content is the caller's start value, not a solver output
+                    d = np.diag(np.asarray(a[1]))
+                    arrs = (np.asarray(out)[d != 0],)
                 ctx.count("live/%s" % name)
                 for arr in arrs:
                     arr = np.asarray(arr)
